@@ -321,4 +321,28 @@ theorem ensureInSubDir_lexical (file dir : List Char) (h : ensureInSubDir file d
           simp only [hs] at h
           exact Or.inr ⟨rest, stripPrefixL_some _ _ _ hs, by simpa using habs, h⟩
 
+
+/-- every include value becomes one glob pattern, in order: itself when absolute, otherwise joined
+to the ENTRY directory (never to the including file's directory) -/
+theorem includePatterns_spec (dir : List Char) : ∀ (items : List AItem) (pats : List (List Char)),
+    includePatterns dir items = .ok pats →
+    ∃ vs : List (List Char), items.map AItem.paramStr = vs.map some ∧
+      pats = vs.map (fun v => if isAbsPath v then v else joinPath dir v) := by
+  intro items
+  induction items with
+  | nil => intro pats h; simp only [includePatterns, Except.ok.injEq] at h; subst h; exact ⟨[], rfl, rfl⟩
+  | cons it rest ih =>
+    intro pats h
+    unfold includePatterns at h
+    split at h
+    · simp at h
+    · rename_i v hv
+      split at h
+      · simp at h
+      · rename_i ps hps
+        simp only [Except.ok.injEq] at h
+        subst h
+        obtain ⟨vs, h1, h2⟩ := ih ps hps
+        exact ⟨v :: vs, by simp [hv, h1], by simp [h2]⟩
+
 end DaeVerif.C17
